@@ -88,6 +88,11 @@ AGGS = {
     "min": (lambda S: A.min(S[0]), 1), "max": (lambda S: A.max(S[0], key=lambda x: x.key), 1),
     "reduce": (lambda S: A.reduce(_last, S[0]), 1),
     "nlargest4": (lambda S: A.nlargest(S[0], 4), 4), "nsmallest3": (lambda S: A.nsmallest(S[0], 3, key=lambda x: -x.key), 3),
+    # streams full of ties (equal keys): the window must still be n
+    "nlargest4_ties": (lambda S: A.nlargest(S[0], 4), 4, lambda i: i % 3),
+    "nsmallest3_const_key": (lambda S: A.nsmallest(S[0], 3, key=lambda x: 0), 3),
+    "nlargest2_all_equal": (lambda S: A.nlargest(S[0], 2), 2, lambda i: 7),
+    "min_ties": (lambda S: A.min(S[0]), 1, lambda i: i % 2), "max_all_equal": (lambda S: A.max(S[0]), 1, lambda i: 5),
 }
 TEE_PATTERNS = ["lockstep", "lead5", "lag-then-catch-up", "close-started-child", "close-unstarted-child",
                 "child-killed-by-athrow", "child-killed-by-source-error"]
@@ -121,13 +126,14 @@ def _run_gen(name, n):
 
 
 def _run_agg(name, n):
-    build, _ = AGGS[name]
+    build = AGGS[name][0]
+    keyf = AGGS[name][2] if len(AGGS[name]) > 2 else (lambda i: (i * 7919) % 1000)
     refs = []
     state = {"worst": 0}
 
     def probe():
         state["worst"] = max(state["worst"], alive(refs))
-    S = [Source(n, refs, probe, keyf=lambda i: (i * 7919) % 1000)]
+    S = [Source(n, refs, probe, keyf=keyf)]
     res = drive(build(S))
     if res.exc is not None:
         return -1
